@@ -18,6 +18,10 @@ OBLIGATIONS += [o for o in wfile_obls("e")] + [o for o in rwmisc_obls("e")]
 from obl.dbimpl_compact import compaction_obls
 OBLIGATIONS += [o for o in compaction_obls("d") if o.tier == "quick" and "faults1" in o.name][:3]
 
+# f: every failure while writing the MANIFEST is returned, nothing is installed, nothing NULL is destroyed (F5)
+from obl.vset_more import apply_obls
+OBLIGATIONS += [o for o in apply_obls("f") if "shape0" in o.name or "shape1" in o.name]
+
 META = {
     "level": "model_checking",
     "level_text": "Bounded model checking (CBMC) of the real db_impl.c write, flush and garbage-collection paths with every env/log call below them returning a symbolic error: a failed log append or sync is returned to the writer, inserts nothing and latches the background error so that every later write is refused (the defect F1 was found and repaired here); a failed table build / MANIFEST apply latches the error and leaves the immutable memtable and its log in place; nothing is deleted after a latched error.",
